@@ -41,4 +41,11 @@ def run(rep, fb, tier):
     from ..rules import binding as _bd
     _bd.rule_exception_unthrown(rep, fb)
     _bd.rule_pointer_export(rep, fb)
+    _bd.rule_pickle_state(rep, fb)
+    _bd.rule_binding_narrowing(rep, fb)
+    _pr5.rule_py_bytes_str_arms(rep)
+    _bd.rule_binding_isinstance_order(rep, fb)
+    _bd.rule_pointer_units(rep, fb)
+    _bd.rule_buffer_info_pair(rep, fb)
+    _bd.rule_def_arg_order(rep, fb)
     rep.units = fb.units + ["src/awkward/operations/convert.py, highlevel.py, _util.py, partition.py (ast)"]
